@@ -585,6 +585,28 @@ impl World {
         key
     }
 
+    /// (basis points, maximum fee) of the Token-2022 transfer fee IN FORCE for `mint` at the world's epoch (0);
+    /// (0, 0) for classic SPL mints and Token-2022 mints without the extension.
+    pub fn transfer_fee_in_force(&self, mint: &Pubkey) -> (u16, u64) {
+        let acct = match self.get(mint) {
+            Some(a) => a,
+            None => return (0, 0),
+        };
+        if acct.owner != spl_token_2022::ID {
+            return (0, 0);
+        }
+        match StateWithExtensions::<spl_token_2022::state::Mint>::unpack(&acct.data) {
+            Ok(st) => match st.get_extension::<TransferFeeConfig>() {
+                Ok(cfg) => {
+                    let f = cfg.get_epoch_fee(0);
+                    (u16::from(f.transfer_fee_basis_points), u64::from(f.maximum_fee))
+                }
+                Err(_) => (0, 0),
+            },
+            Err(_) => (0, 0),
+        }
+    }
+
     /// Schedule a transfer-fee change on a Token-2022 fee mint like `SetTransferFee` does: the fee in force stays in
     /// `older_transfer_fee`, the new one goes to `newer_transfer_fee` with an activation epoch in the future (the world's
     /// clock epoch is 0), so the OLD fee keeps being charged.
